@@ -22,6 +22,10 @@ import (
 
 const repoV2 = "/repo/v2"
 
+// srcV2 is where the sources are read from (default: repoV2). The overlay always replaces the
+// files of repoV2; -src lets a mutated copy of the tree be explored without touching /repo.
+var srcV2 = repoV2
+
 var files = []string{
 	"blockstore/readonly.go",
 	"blockstore/readwrite.go",
@@ -59,6 +63,12 @@ var guarded = map[string]guardCfg{
 		required: []string{"Put", "Has", "GetStream", "Finalize"}},
 	"DeferredCarWriter": {obj: func(r string) string { return r }, writes: map[string]bool{"Put": true, "Close": true, "Has": true},
 		required: []string{"Put", "Has", "Close"}},
+}
+
+// entryHooks: methods that get the store-state hook as their first statement although they
+// never mention the closed flag (they take no lock at all). Value = the access is a write.
+var entryHooks = map[string]map[string]bool{
+	"DeferredCarWriter": {"OnPut": true},
 }
 
 func mentionsClosed(n ast.Node, recv string) bool {
@@ -184,6 +194,7 @@ func (r *rewriter) list(l []ast.Stmt) {
 
 func main() {
 	out := flag.String("out", "", "output directory")
+	flag.StringVar(&srcV2, "src", repoV2, "directory holding the go-car v2 sources to rewrite (the overlay still replaces "+repoV2+")")
 	flag.Parse()
 	if *out == "" {
 		die("missing -out")
@@ -196,7 +207,7 @@ func main() {
 		"/repo/v2/verifbridge/bridge.go": "/verif/engine/overlay/bridge.go",
 	}
 	for _, rel := range files {
-		src := filepath.Join(repoV2, rel)
+		src := filepath.Join(srcV2, rel)
 		fset := token.NewFileSet()
 		f, err := parser.ParseFile(fset, src, nil, parser.ParseComments)
 		if err != nil {
@@ -334,7 +345,17 @@ func main() {
 					return
 				}
 			}
-			hookList(&fd.Body.List)
+			if isWrite, ok := entryHooks[id.Name][fd.Name.Name]; ok {
+				w = "false"
+				if isWrite {
+					w = "true"
+				}
+				fd.Body.List = append([]ast.Stmt{mk(id.Name + "." + fd.Name.Name)}, fd.Body.List...)
+				hookedMethods[id.Name+"."+fd.Name.Name] = true
+				r.changed = true
+			} else {
+				hookList(&fd.Body.List)
+			}
 			if cfg.iterInGo {
 				// inside goroutines started by this method: a read of the store before every send
 				ast.Inspect(fd.Body, func(n ast.Node) bool {
@@ -436,13 +457,84 @@ func main() {
 		if err := os.WriteFile(dst, []byte("// Code generated by vrewrite from "+src+"; DO NOT EDIT.\n"+text), 0o644); err != nil {
 			die("%v", err)
 		}
-		overlay[src] = dst
+		overlay[filepath.Join(repoV2, rel)] = dst
 	}
+	scanned := refuseUnlistedConcurrency()
 	b, _ := json.MarshalIndent(map[string]any{"Replace": overlay}, "", " ")
 	if err := os.WriteFile(filepath.Join(*out, "overlay.json"), b, 0o644); err != nil {
 		die("%v", err)
 	}
-	fmt.Printf("vrewrite: %d files rewritten\n", len(overlay)-1)
+	fmt.Printf("vrewrite: %d files rewritten, %d other files scanned for concurrency constructs\n", len(overlay)-1, scanned)
+}
+
+// refuseUnlistedConcurrency parses every non-test source file of the go-car v2 module that
+// is NOT in the rewrite list and fails if one of them contains a concurrency construct
+// (goroutine, channel, select, sync, sync/atomic): the explorer would run it un-scheduled and
+// un-hooked, i.e. it would silently not be explored. Such a file has to be added to `files`.
+func refuseUnlistedConcurrency() int {
+	listed := map[string]bool{}
+	for _, rel := range files {
+		listed[filepath.Join(srcV2, rel)] = true
+	}
+	n := 0
+	repoV2 := srcV2
+	err := filepath.Walk(repoV2, func(path string, info os.FileInfo, err error) error {
+		if err != nil {
+			return err
+		}
+		if info.IsDir() {
+			if name := info.Name(); path != repoV2 && (name == "testdata" || strings.HasPrefix(name, ".") || strings.HasPrefix(name, "_")) {
+				return filepath.SkipDir
+			}
+			if path != repoV2 {
+				if _, err := os.Stat(filepath.Join(path, "go.mod")); err == nil {
+					return filepath.SkipDir // another module
+				}
+			}
+			return nil
+		}
+		if !strings.HasSuffix(path, ".go") || strings.HasSuffix(path, "_test.go") || listed[path] {
+			return nil
+		}
+		fset := token.NewFileSet()
+		f, err := parser.ParseFile(fset, path, nil, 0)
+		if err != nil {
+			die("cannot parse %s: %v", path, err)
+		}
+		n++
+		for _, im := range f.Imports {
+			p, _ := strconv.Unquote(im.Path.Value)
+			if p == "sync" || p == "sync/atomic" || p == "golang.org/x/sync/errgroup" || p == "golang.org/x/sync/semaphore" {
+				die("%s imports %s but is not in the rewrite list: its synchronisation would not be scheduled", fset.Position(im.Pos()), p)
+			}
+		}
+		ast.Inspect(f, func(x ast.Node) bool {
+			what := ""
+			switch v := x.(type) {
+			case *ast.GoStmt:
+				what = "go statement"
+			case *ast.SelectStmt:
+				what = "select"
+			case *ast.SendStmt:
+				what = "channel send"
+			case *ast.ChanType:
+				what = "channel type"
+			case *ast.UnaryExpr:
+				if v.Op == token.ARROW {
+					what = "channel receive"
+				}
+			}
+			if what != "" {
+				die("%s: %s in a file that is not in the rewrite list: it would run outside the scheduler", fset.Position(x.Pos()), what)
+			}
+			return true
+		})
+		return nil
+	})
+	if err != nil {
+		die("scanning %s: %v", repoV2, err)
+	}
+	return n
 }
 
 func addImport(f *ast.File, name, path string) {
